@@ -13,6 +13,7 @@ Theorem C12_chunk_spec : forall (fuel : nat) avg var start end_ draws,
   exists os ds, slicer_chunk fuel avg var start end_ draws = CROk os ds /\
                 covers os start end_ /\ (start < end_ -> pieces_within (avg + var) os).
 Proof. exact slicer_chunk_spec. Qed.
+Print Assumptions C12_chunk_spec.
 
 (** a whole input chunk through the stage, uninterrupted: the pieces concatenate to the input
     (nothing held at the end), each is non-empty and at most avg+var long, and consecutive pieces
@@ -28,6 +29,7 @@ Theorem C12_chunk_through : forall avg var delay,
   Forall (fun e => 0 < zlen (snd e) <= avg + var) (fst (fst r)) /\
   gaps_ok (slicer_delay_ns delay) (map fst (fst (fst r))).
 Proof. exact slicer_chunk_through. Qed.
+Print Assumptions C12_chunk_through.
 
 (** interrupted (update / removal) in any wait, i.e. at any piece boundary: what was emitted plus
     what is still held is exactly the input - nothing lost or duplicated (for every attribute
@@ -37,25 +39,30 @@ Theorem C12_stream_exact : forall avg var delay ps now draws (c : chunk) fuel in
   let r := stage_emit (TSlicer avg var delay) ps now fuel intr_at s in
   emitted r ++ held (final_st r) = cdata c.
 Proof. exact c12_stream_exact. Qed.
+Print Assumptions C12_stream_exact.
 
 Theorem C12_wait_after_piece : forall avg var delay ps now (pc c' : chunk) rest o tot,
   on_sent (TSlicer avg var delay) ps now (Send pc (KSlNext c' rest o tot)) =
   (SlWait c' rest o tot (now + slicer_delay_ns delay), ps).
 Proof. exact c12_wait_after_piece. Qed.
+Print Assumptions C12_wait_after_piece.
 
 Theorem C12_interrupt : forall now (c : chunk) rest o tot dl,
   on_interrupt now (SlWait c rest o tot dl) = Send c KExit /\
   held (Send c KExit) = cdata c /\
   (forall tx ps, on_sent tx ps now (Send c KExit) = (Exited, ps)) /\ held Exited = [].
 Proof. exact c12_interrupt. Qed.
+Print Assumptions C12_interrupt.
 
 Theorem C12_send_not_interruptible : forall (c : chunk) k now, on_interrupt now (Send c k) = Send c k.
 Proof. exact c12_send_not_interruptible. Qed.
+Print Assumptions C12_send_not_interruptible.
 
 (** regenerated from toxics/*.go on every run: in no built-in toxic is the hand-off `stub.Output <- x`
     an arm of a select - which is what makes [Send] states deaf to interrupts in the model *)
 Theorem C12_sends_are_plain : toxic_sends_are_plain = true.
 Proof. reflexivity. Qed.
+Print Assumptions C12_sends_are_plain.
 
 (** outside the documented range the recursion still terminates and partitions the chunk; the
     pieces are non-empty but their size is not bounded by the attributes, whose arithmetic may wrap (C07; the pinned code diverged on 0/0: F5a) *)
@@ -64,3 +71,4 @@ Theorem C12_total_any_attributes : forall (fuel : nat) avg var start end_ draws,
   exists os ds, slicer_chunk fuel avg var start end_ draws = CROk os ds /\
                 covers os start end_ /\ (start < end_ -> pieces_within (end_ - start) os).
 Proof. exact slicer_chunk_total. Qed.
+Print Assumptions C12_total_any_attributes.
